@@ -34,7 +34,7 @@ MANIFEST = {
 
 REQUIRED = ["KV.C13.z_incremental", "KV.C13.normalised", "KV.C13.formula", "KV.C13.ngram_union",
             "KV.C13.single_identity", "KV.C13.spec_eq_tool", "KV.C13.formula_spec", "KV.C13.pass12_refines",
-            "KV.C13.vocab_union", "KV.C13.ngram_union_renumbered", "KV.C13.bse_roundtrip", "KV.C13.bse_no_ub", "KV.C13.bse_shift64_witness", "KV.C13.equal_orders_not_stuck", "KV.C13.abort_witness",
+            "KV.C13.vocab_union", "KV.C13.ngram_union_renumbered", "KV.C13.pass2_stream_refines", "KV.C13.bse_roundtrip", "KV.C13.bse_no_ub", "KV.C13.bse_shift64_witness", "KV.C13.equal_orders_not_stuck", "KV.C13.abort_witness",
             "KV.C13.termination_fails_mixed_orders", "KV.C13.formula_real", "KV.C13.normalised_real",
             "KV.C13.interp_nonpos", "KV.C13.z_incremental_real"]
 
@@ -82,6 +82,16 @@ def gen_case(rng, kind=None):
         if kind == "diff-mixed" and len({o for _, o in comps}) == 1:
             t, o = comps[-1]
             comps[-1] = (t, o + 1 if o < 5 else o - 1)
+        if rng.random() < 0.3:
+            # lmplz variants: pruned models (larger corpus so that something survives), uninterpolated unigrams
+            j = rng.randrange(len(comps))
+            t, o = comps[j]
+            if rng.random() < 0.6:
+                t = G.gen_corpus(rng, G.gen_vocab(rng, shared), rng.choice([60, 120]), rng.choice([4, 7]))
+                thr = ["0"] + [str(rng.choice([0, 1, 1, 2])) for _ in range(o - 1)]
+                comps[j] = (t, o, ["--prune"] + thr)
+            else:
+                comps[j] = (t, o, ["--interpolate_unigrams", "0"])
     elif kind == "same-corpus-mixed":
         v = G.gen_vocab(rng)
         text = G.gen_corpus(rng, v, rng.choice([5, 15, 40]), rng.choice([3, 5, 8]))
@@ -163,9 +173,10 @@ class CaseResult:
 
 def build_models(case, lmplz, wd):
     models = []
-    for i, (text, order) in enumerate(case["comps"]):
+    for i, comp in enumerate(case["comps"]):
+        text, order = comp[0], comp[1]
         base = os.path.join(wd, "m%d" % i)
-        rc, err = G.lmplz_build(lmplz, text, order, base)
+        rc, err = G.lmplz_build(lmplz, text, order, base, extra=comp[2] if len(comp) > 2 else ())
         if rc != 0:
             return None, "lmplz failed rc=%s: %s" % (rc, err[-300:])
         models.append(G.read_intermediate(base))
@@ -231,13 +242,23 @@ def run_case(ctx, case, bins, dexe, wd, cap_ctx):
         r.status, r.what = "violation", "Lean driver failed on the case (rc=%s) %s" % (rc2, e2[-300:])
         r.detail = {"stream": "driver"}
         return r
-    nb = len(ops) - maxo - 3
-    built, uv_line, stuck_line = o2[nb], o2[nb + 1], o2[nb + 2]
+    nb = len(ops) - maxo - 4
+    built, uv_line, stuck_line, stream_line = o2[nb], o2[nb + 1], o2[nb + 2], o2[nb + 3]
     uv = uv_line.split(" ")
     m_stuck = sorted(tuple(s.split(" ")) for s in stuck_line.split("\t") if s)
     p_stuck = py_stuck(models)
     r.detail = {"built": built, "orders": orders, "weights": case["weights"], "setting": case["setting"],
                 "kind": case["kind"], "stuck_model": [" ".join(g) for g in m_stuck[:5]]}
+    # stream model of pass 2 (sameCtx/extendCtx on the ContextOrder-sorted union) vs the functional model: the sorted
+    # streams must have the grouped shape assumed by theorem pass2_stream_refines, every record must be consumed, one
+    # probability per record of order >= 2, values equal to the output table
+    sf = dict(kv.split("=") for kv in stream_line.split(" ")[1:])
+    n_high = sum(len(m["entries"].get(k, [])) for m in models for k in range(2, maxo + 1))
+    r.detail["stream"] = stream_line
+    if not (sf.get("shape") == "true" and sf.get("consumed") == "true" and G.f64_from_bits(sf["maxdev"]) <= 1e-9):
+        r.status, r.what = "violation", "Lean stream model of pass 2 disagrees with the functional model: " + stream_line
+        r.no_input = True
+        return r
     if m_stuck != p_stuck:
         r.status, r.what = "violation", "Lean model's stuck set differs from the Python evaluation of the same predicate"
         r.detail["stuck_python"] = [" ".join(g) for g in p_stuck[:5]]
@@ -329,7 +350,7 @@ def run_case(ctx, case, bins, dexe, wd, cap_ctx):
     # ---- entry-by-entry correspondence with the model's output table (after the property oracle)
     mod_entries = {}
     for k in range(1, maxo + 1):
-        line = o2[nb + 2 + k]
+        line = o2[nb + 3 + k]
         for rec in (line.split("\t") if line else []):
             f = rec.split(" ")
             mod_entries[tuple(f[:k])] = (G.f64_from_bits(f[k]), G.f64_from_bits(f[k + 1]))
@@ -382,7 +403,8 @@ def shrink_case(ctx, case, bins, dexe, wd, cap_ctx, status, budget=40):
     cur = dict(case)
     tests = [0]
     for i in range(len(case["comps"])):
-        text, order = cur["comps"][i]
+        text, order = cur["comps"][i][0], cur["comps"][i][1]
+        extra = tuple(cur["comps"][i][2:])
         lines = text.splitlines()
 
         def f(ls):
@@ -391,30 +413,33 @@ def shrink_case(ctx, case, bins, dexe, wd, cap_ctx, status, budget=40):
             tests[0] += 1
             c2 = dict(cur)
             cc = list(cur["comps"])
-            cc[i] = ("\n".join(ls) + "\n", order)
+            cc[i] = ("\n".join(ls) + "\n", order) + extra
             c2["comps"] = cc
             return fails(c2)
         small = stream.ddmin(lines, f, max_tests=budget)
         cc = list(cur["comps"])
-        cc[i] = ("\n".join(small) + "\n", order)
+        cc[i] = ("\n".join(small) + "\n", order) + extra
         cur["comps"] = cc
     return cur
 
 
 def case_json(case):
-    return {"kind": case["kind"], "comps": [{"corpus": t, "order": o} for t, o in case["comps"]],
+    return {"kind": case["kind"],
+            "comps": [{"corpus": c[0], "order": c[1], "lmplz_extra": list(c[2]) if len(c) > 2 else []} for c in case["comps"]],
             "weights": case["weights"], "setting": list(case["setting"])}
 
 
 def case_from_json(j):
-    return {"kind": j["kind"], "comps": [(c["corpus"], c["order"]) for c in j["comps"]],
+    return {"kind": j["kind"],
+            "comps": [(c["corpus"], c["order"]) + ((c["lmplz_extra"],) if c.get("lmplz_extra") else ()) for c in j["comps"]],
             "weights": j["weights"], "setting": tuple(j["setting"])}
 
 
 def handle(ctx, case, r, bins, dexe, wd, cap_ctx):
     """Book-keeping for one evaluated case.  Returns True if a (non-known) violation was reported."""
-    orders = [o for _, o in case["comps"]]
+    orders = [c[1] for c in case["comps"]]
     ctx.hist("kind", case["kind"])
+    ctx.hist("lmplz", "+".join(sorted({(c[2][0] if len(c) > 2 else "default") for c in case["comps"]})))
     ctx.hist("models", len(orders))
     ctx.hist("orders", "-".join(str(o) for o in orders))
     ctx.hist("setting", "%s/%s" % case["setting"])
